@@ -2,6 +2,7 @@
 from __future__ import annotations
 
 import copy
+import json
 import random
 import shutil
 import tempfile
@@ -126,7 +127,7 @@ def gen_ops(rng, kind):
             if d == 'swap':
                 op['other'] = rng.choice([x for x in keys if x != k])
             if d == 'wrongjson':
-                op['text'] = rng.choice(['{}', '[]', 'null', '{"value": 42}', '{"kee": "zz", "value": 1}', '123', '"str"', '{"value": 1, "kee": null}x'])
+                op['text'] = rng.choice(['{}', '[]', 'null', '{"value": 42}', '{"kee": "zz", "value": 1}', '123', '"str"', '{"value": 1, "kee": null}x', '@KEYONLY', '@KEYONLY'])
             if d == 'trunc_rand':
                 op['frac'] = rng.random()
             ops.append(op)
@@ -224,6 +225,17 @@ def run_sequence(kind, ops, res: CaseResult):
                     new = {'pd': b'not a pickle \x00\xff', 'npy': b'\x93NUMPY\x01\x00garbage'}.get(kind, b'\x00\xff\xfe garbage {')
                 elif how == 'wrongjson':
                     new = op['text'].encode()
+                    if op['text'] == '@KEYONLY':
+                        # well-formed JSON that records the RIGHT key but has lost its value member: still not a stored value
+                        try:
+                            if ent['state'] != 'ok':    # e.g. a file recorded for another key stays one (and is reported) without its value
+                                raise ValueError
+                            obj = json.loads(data)
+                            obj.pop('value')
+                            new = json.dumps(obj).encode()
+                            res.count('json_entries_reduced_to_their_key')
+                        except Exception:
+                            new = b'{}'
                 else:
                     n = len(data)
                     cut = {'trunc0': 0, 'trunc1': 1, 'trunchalf': n // 2, 'truncn1': max(0, n - 1)}.get(how)
